@@ -96,6 +96,15 @@ def deferred_err_edges(ctx, b):
     return out
 
 
+def with_helpers(ctx, b):
+    """the command function with the helpers of cli.rs it calls spliced in (`let files = enumerate_all_files(paths)?; push_files(..)`): the
+    contract is about the command, not about how its steps are split into functions.  Not spliced: the emitter itself, the constructor of
+    one diagnostic, enumerate_files (R-C13-dir decides it) and create_project where a command calls it (decided here as its own entry)."""
+    from vlib.inline import inlined
+    keep = {HD, CLI + "diagnostic", CLI + "enumerate_files", CLI + "create_project", CLI + "check", CLI + "echo", CLI + "tokenize"}
+    return inlined(ctx.prog, b, accept=lambda h: norm(h.id) not in keep and norm(h.id).startswith(CLI))
+
+
 def analyse(ctx, b):
     """Explore all paths; state = (emitted, ok_printed, saw_err_arm, nonempty, emit_if_err, ret, bools)"""
     deferred = deferred_err_edges(ctx, b)
@@ -116,11 +125,28 @@ def analyse(ctx, b):
                 continue
             if s[1] == [0, []] and s[2][0] == "agg" and s[2][1].get("adt") == "core::result::Result":
                 ret = s[2][1]["variant"]
+            # the variant a Result variable holds on this path (a spliced helper builds `Err(..)` in one block and the caller's `?` tests it
+            # in another: the two are one decision, not two)
+            if not s[1][1]:
+                l = s[1][0]
+                v = None
+                if s[2][0] == "agg" and isinstance(s[2][1], dict) and s[2][1].get("adt") == "core::result::Result":
+                    v = s[2][1]["variant"]
+                elif s[2][0] == "use" and s[2][1][0] in ("cp", "mv") and not s[2][1][1][1]:
+                    v = dict(bools).get(("var", s[2][1][1][0]))
+                if v is not None or dict(bools).get(("var", l)) is not None:
+                    bools = frozenset([(k_, x) for k_, x in bools if k_ != ("var", l)] + ([(("var", l), v)] if v is not None else []))
             if not s[1][1] and s[1][0] in bool_locals and s[2][0] == "use" and s[2][1][0] == "c":
                 v = s[2][1][2] == "true"
                 bools = frozenset([(l, x) for l, x in bools if l != s[1][0]] + [(s[1][0], v)])
         c = b.call_at(bb)
         if c is not None:
+            if not c.dest[1]:
+                v = None
+                if (c.callee or "").endswith("Try>::branch") and c.args and op_place(c.args[0]) is not None and not op_place(c.args[0])[1]:
+                    v = {"Ok": "Continue", "Err": "Break"}.get(dict(bools).get(("var", op_place(c.args[0])[0])))
+                if v is not None or dict(bools).get(("var", c.dest[0])) is not None:
+                    bools = frozenset([(k_, x) for k_, x in bools if k_ != ("var", c.dest[0])] + ([(("var", c.dest[0]), v)] if v is not None else []))
             if c.callee == "alloc::vec::Vec::push" and op_place(c.args[0]) is not None:
                 vr = b.root(op_place(c.args[0]))
                 if not vr[1]:
@@ -146,6 +172,15 @@ def analyse(ctx, b):
         si = switch_info(b, bb)
         if si:
             labs = si["edges"].get(succ, [])
+            if si["kind"] == "disc":
+                sl = None
+                if si["subject"][0] == "place" and not si["subject"][1][1]:
+                    sl = si["subject"][1][0]
+                elif si["subject"][0] == "call" and not si["subject"][2] and not si["subject"][1].dest[1]:
+                    sl = si["subject"][1].dest[0]
+                held = dict(bools).get(("var", sl)) if sl is not None else None
+                if held is not None and held not in labs:
+                    return None   # infeasible: the variable holds the other variant on this path
             if si["kind"] == "disc" and si.get("adt") == "core::result::Result":
                 if labs == ["Err"] and (bb, succ) not in deferred:
                     sawerr = True
@@ -186,7 +221,7 @@ def run(ctx, rep):
         if not bs:
             rep.error("R-C13-emit", "cli::%s not found" % name)
             continue
-        b = bs[0]
+        b = with_helpers(ctx, bs[0])
         where = "%s:%d" % (b.f["file"], b.f["line"])
         finals = analyse(ctx, b)
         classes = set()
